@@ -693,13 +693,13 @@ func histMain(path, mode string) int {
 	// several database instances per case: a line may start with "@<n>" to address instance n
 	// (default 0); each instance lives in <base>/<n> and is opened at its first use
 	var (
-		envs    map[int]*histEnv
-		base    string
-		keep    bool
-		keys    []string
-		keyIds  map[string]int
-		roots   int
-		maxdir  int
+		envs   map[int]*histEnv
+		base   string
+		keep   bool
+		keys   []string
+		keyIds map[string]int
+		roots  int
+		maxdir int
 	)
 	closeAll := func() {
 		if envs == nil {
